@@ -244,6 +244,9 @@ fn mulf_oracle(c: &MulF) -> Verdict {
         return Verdict::Pass("saturates", true);
     }
     ensure!((count(r) - wantc).abs() <= tol, "{} ns x {:e}: got {}, exact product {} (difference {} > 1 ns + float rounding = {})", cd, q, count(r), want, count(r) - wantc, tol);
+    // "truncated toward zero": the result never lies farther from zero than the real product (float rounding apart)
+    let rounding = (want.abs() as f64 * 4.0 * 2f64.powi(-52)) as i128;
+    ensure!(count(r).abs() <= wantc.abs() + rounding, "{} ns x {:e}: got {}, which is farther from zero than the real product (whole part {}): not truncated toward zero", cd, q, count(r), want);
     let class = if q != 0.0 && q.abs() < 2.3e-16 {
         "|q|<epsilon"
     } else if q < 0.0 {
